@@ -202,3 +202,23 @@ chk("C08",
     "(as_strided) are outside.",
     "symbolic execution from a symbolic pre-state under a representation invariant (inductive step, z3) + exhaustive concrete histories against a liveness model",
     "DESIGN §3 C08, App. A")
+
+# families added after the sixth wave of seeded changes (appended to the level texts above)
+EXTRA = {
+    "C03": "Calls with a tensor-valued where= mask are part of the value lane.",
+    "C04": "Maybe-view family: ravel / reshape / squeeze / expand_dims / moveaxis / atleast_2d / transpose / roll / repeat applied to the base or "
+           "to a strided, reversed, transposed or column view of it, then one in-place statement on any member (NumPy decides view-or-copy).",
+    "C06": "perm3 family: a (3, 2, 2) base whose axes were permuted (neither C- nor F-ordered), first contribution through a weight of another "
+           "axis order or through the views, views that need the data's layout.",
+    "C07": "Stale-view family: after another backward pass through the base a caller-held view reads None or the view of the new gradient.",
+    "C09": "constout family: the shared tensor is updated through out= with an explicit constant= (either way).",
+    "C11": "Spelling families with axes given from the end, mixed-sign permutations (2-d, 3-d) and reduction options passed to methods "
+           "positionally and by keyword.",
+    "C12": "Default-seed family: the seeds MyGrad makes up for several terminals must not be shared.",
+    "C13": "After-backward family: every view program, backward(), then a failing statement (9 kinds incl. views refused after the forward "
+           "pass) on each tensor: gradients, bases, consumers and values identical to the run without it, also after a further backward pass. "
+           "Two-step functions failing in their second step on a dtype.",
+    "C14": "Seeds with extra leading length-1 axes (contiguous and strided) on contiguous, transposed, F-ordered and strided terminals.",
+    "C15": "Shapes that need a copy are refused inside no_autodiff as with tracking, and the view keeps writing through.",
+    "C17": "linspace/logspace/geomspace with array-like end points, axis and base; timedelta64, bytes and structured data at the dtype gate.",
+}
